@@ -92,6 +92,23 @@ def _g_default_search(r, pre):
     C01.value_rules(r, pre)
 
 
+def _g_validation(r, pre):
+    from .props._nn import check_validation
+    check_validation(r, pre + "C10-VAL")
+    r.rep.floor(pre + "C10-VAL", 30)
+
+
+def _g_kd_pool(r, pre):
+    from .props._nn import check_pool
+    check_pool(r, pre + "C11")
+    check_flatten(r, pre + "C11-FLAT")
+
+
+def _g_pcdelta(r, pre):
+    from .props import C05
+    C05.pipeline_rules(r, pre)
+
+
 def _g_alphabet(r, pre):
     check_alphabet(r, pre + "ALPHABET")
 
@@ -134,6 +151,9 @@ GROUPS = {
     "tuple-converter": ({"pyrepseq.util.convert_tuple_to_dataframe_if_necessary"}, set(), _g_tuple, {"C02"}),
     # (the other neighbour-search properties analyse their own modes of the same engines; only a property that *calls* the default search depends on it)
     "default-search": ({"pyrepseq.nn.nearest_neighbor"}, set(), _g_default_search, {"C01", "C03", "C04", "C07", "C10", "C11", "C20"}),
+    "nn-validation": ({"pyrepseq.nn._check_common_input"}, set(), _g_validation, {"C10"}),
+    "kd-pool": ({"pyrepseq.nn._to_triplets", "pyrepseq.nn._flatten_array"}, set(), _g_kd_pool, {"C11", "C20"}),
+    "pcdelta": ({"pyrepseq.distance.pcDelta"}, set(), _g_pcdelta, {"C05"}),
     "alphabet": (set(), {"pyrepseq.io.aminoacids", "pyrepseq.io._aminoacids_set"}, _g_alphabet, set()),
     "ensure-numpy": ({"pyrepseq.util.ensure_numpy"}, set(), _g_ensure_numpy, set()),
     "edit-neighbours": ({"pyrepseq.distance.levenshtein_neighbors", "pyrepseq.distance.hamming_neighbors"}, set(), _g_neighbours, {"C12"}),
@@ -163,7 +183,9 @@ def run_dependencies(r):
     if any(q.startswith("pyrepseq.nn.") and q.rsplit(".", 1)[1] in ("_to_triplets", "kdtree", "_kdtree_leven") for q in reach):
         check_start_method(r, pre + "START-METHOD")
         ran.append("start-method")
-    r.rep.dependencies = {"reached_functions": len(reach), "groups": ran}
+    # honesty: functions the property's entry points reach and that no rule (own or shared) has looked at
+    uncovered = sorted(q for q in reach - set(r.rep.functions) if not q.rsplit(".", 1)[1].startswith("__") or q.endswith(".__init__") or q.endswith(".__call__"))
+    r.rep.dependencies = {"reached_functions": len(reach), "groups": ran, "reached_without_rules": uncovered}
 
 
 # --------------------------------------------------------------------------- small shared rules
@@ -234,6 +256,23 @@ def check_ensure_numpy(r, rule):
     eq = Equiv(rewrites=std_rewrites(), modelled={"numpy.array", "numpy.asarray", "builtins.type", "builtins.isinstance", ".to_numpy"})
     compare_function(r, rule, q, ENSURE_NUMPY_SPEC, "ensure_numpy returns the elements of its argument, in order and unchanged, as a positional array "
                      "(Series.to_numpy(), an ndarray as it is, np.array(anything else))", eq=eq, key="ensure_numpy")
+    r.rep.floor(rule, 1)
+
+
+FLATTEN_SPEC = '''
+def _flatten_array(nested_array):
+    return list(chain(*nested_array))
+'''
+
+
+def check_flatten(r, rule):
+    """The per-task result lists are concatenated in task order, nothing dropped."""
+    from .rules import Equiv, compare_function, std_rewrites
+    q = "pyrepseq.nn._flatten_array"
+    if q not in r.P.functions:
+        r.rep.require(False, f"{q} not found: how the workers' results are assembled cannot be decided [{rule}]")
+        return
+    compare_function(r, rule, q, FLATTEN_SPEC, "_flatten_array concatenates the workers' result lists in task order", eq=Equiv(rewrites=std_rewrites(), modelled={"itertools.chain", "itertools.chain.from_iterable", "builtins.list"}), key="flatten")
     r.rep.floor(rule, 1)
 
 
